@@ -1124,3 +1124,55 @@ def rule_null_slots_skipped(ctx):
             ctx.violated("NULLSKIP", key, f.where(line), "this walk reports a slot as a match on `%s` without first stepping over DFTAG_NULL slots: a deleted descriptor (tag cleared, ref left behind) is found as if it were live" % render(match[1])[:80])
     ctx.floor("NULLSKIP", 7, n, "(descriptor walks in HTIfind_dd that can report a match)")
     return n
+
+
+def rule_link_written_in_predecessor(ctx):
+    """LINKPOS (C12, C02): a new DD block becomes part of the file when its offset is written into the `next` field of the block
+    that was last until now (`ddlast`) — at that block's position + NDDS_SZ, or right behind the magic number when that block is
+    the first.  In HTInew_dd_block the position of that write must therefore be computed from `ddlast` (its own offset, or its
+    predecessor's link to it) except in the arm taken when `ddhead == ddlast`.  Computed from the head of the list it overwrites
+    the head's link for the third and every later block, and all blocks in between drop out of the chain."""
+    from .codec import ast_walk
+    prog = ctx.prog
+    f = prog.func("HTInew_dd_block")
+    if f is None or not f.raw.get("ast"):
+        ctx.unrecognised("LINKPOS", "LINKPOS:HTInew_dd_block", "-", "HTInew_dd_block not found")
+        return 0
+    # the variable handed to HPseek
+    seekv = None
+    for _b, _i, _s, c in f.calls():
+        if c[1] == "HPseek" and len(c[3]) > 1 and kind(strip(c[3][1])) == "var":
+            seekv = strip(c[3][1])[1]
+    if seekv is None:
+        ctx.unrecognised("LINKPOS", "LINKPOS:HTInew_dd_block", f.where(), "no HPseek to a computed position")
+        return 0
+    sites = []
+
+    def vis(nd, st):
+        if nd[0] == "s":
+            for x in walk(nd[1], True):
+                if x[0] == "asg" and x[1] == "=" and kind(strip(x[2])) == "var" and strip(x[2])[1] == seekv:
+                    only_block = False
+                    chain = st + [nd]
+                    for i, s_ in enumerate(st):
+                        if s_[0] == "if":
+                            c = strip(s_[1])
+                            if kind(c) == "bin" and c[1] == "==" and {(mem_field(c[2]) or (0, 0))[1], (mem_field(c[3]) or (0, 0))[1]} == {"ddhead", "ddlast"} and chain[i + 1] is s_[2]:
+                                only_block = True
+                    sites.append((x, only_block, nd[-3] if isinstance(nd[-3], int) else f.line))
+        return True
+
+    ast_walk(f.raw["ast"], vis)
+    n = 0
+    for x, only_block, line in sites:
+        n += 1
+        key = "LINKPOS:HTInew_dd_block#%d" % n
+        fields = [y[2] for y in walk(x[3], True) if y[0] == "mem"]
+        if only_block:
+            ctx.holds("LINKPOS", key, f.where(line), "single-block arm (`ddhead == ddlast`): the link sits behind the magic number", nontrivial=True)
+        elif "ddlast" in fields:
+            ctx.holds("LINKPOS", key, f.where(line), "`%s` is computed from the block that was last (`ddlast`)" % render(x[3])[:60], nontrivial=True)
+        else:
+            ctx.violated("LINKPOS", key, f.where(line), "the position of the link to the new block, `%s`, is not computed from `ddlast`: for a file with more than two DD blocks the link of another block is overwritten and the blocks in between are lost" % render(x[3])[:70])
+    ctx.floor("LINKPOS", 2, n, "(positions at which HTInew_dd_block writes the link to the new block)")
+    return n
